@@ -134,7 +134,8 @@ def rt0(U_axes, shape, pt):
 
 
 def cost_indep(d, U_axes, shape, hs, l1, weight=None):
-    pts, w = quadrature(d, l1, len(shape))
+    own = own_rule(l1, len(shape)) if "own_rule" in globals() else None
+    pts, w = own if own is not None else quadrature(d, l1, len(shape))
     dens = np.zeros(tuple(shape))
     for p, wq in zip(pts, w):
         cf = rt0(U_axes, shape, p)
@@ -217,10 +218,14 @@ def run_case(cfg):
     def fail(sig, what, **kw):
         fails.append((sig, what, {**base_rp, "clause": sig, **kw}))
 
-    def go(a, b, L=None, weight=None):
+    EPS = float(np.finfo(float).eps)
+
+    def go(a, b, L=None, weight=None, reg=1.0):
+        # `regularization` (absolute clamp of flux norms, default eps) and Bregman's `L` are dimensional parameters of the
+        # iterations: the homogeneity laws of the (possibly unconverged) iterates are joint in (masses, L, regularization)
         nonlocal n
         n += 1
-        return solve(d, a, b, dims, method, options(l1, mob, ni, L=L), weight=weight)
+        return solve(d, a, b, dims, method, options(l1, mob, ni, L=L, extra={"regularization": EPS * reg}), weight=weight)
 
     cls = f"{method}:{mob}:{l1}:dim={len(shape)}"
     r = go(m1, m2, L=1.0)
@@ -270,9 +275,22 @@ def run_case(cfg):
         stats["max_swap_err"] = e
         if e > TOL_EXACT:
             fail(f"C05:swap:{method}", f"{cls} grid {shape}: d(m1,m2)={dist!r} but d(m2,m1)={float(rs[0])!r}", distance=dist, swapped=float(rs[0]))
+    # (v') the same two image objects used for both directions: nothing may be carried over or modified
+    with warnings.catch_warnings():
+        warnings.simplefilter("ignore")
+        ia, ib = image(d, m1, dims), image(d, m2, dims)
+        o = options(l1, mob, ni, L=1.0, extra={"regularization": EPS})
+        s1 = call(d.wasserstein_distance, ia, ib, method, options=o)
+        s2 = call(d.wasserstein_distance, ib, ia, method, options=o)
+    n += 2
+    if isinstance(s1, Raised) or isinstance(s2, Raised) or float(s1[0]) != dist or abs(float(s2[0]) - dist) > TOL_EXACT * max(dist, scale):
+        fail(f"C05:call-sequence:{method}", f"{cls} grid {shape}: reused image objects give {s1 if isinstance(s1, Raised) else float(s1[0])!r}, "
+             f"{s2 if isinstance(s2, Raised) else float(s2[0])!r}; fresh images give {dist!r}")
+    if not (np.array_equal(ia.img, m1) and np.array_equal(ib.img, m2)):
+        fail(f"C05:modifies-input:{method}", f"{cls}: wasserstein_distance changed the caller's images")
     # (vi) scaling of both masses; for Bregman the regularisation parameter L ("approximate flux norm") is scaled along
     for s, tol, tag in ((cfg["pow2"], TOL_EXACT, "pow2"), (cfg["gen"], TOL_GEN, "generic")):
-        rr = go(s * m1, s * m2, L=s if method == "bregman" else 1.0)
+        rr = go(s * m1, s * m2, L=s if method == "bregman" else 1.0, reg=s)
         if isinstance(rr, Raised):
             fail(f"C05:scale:raises:{method}", f"{cls}: scaled pair raises {rr}")
             continue
@@ -291,7 +309,7 @@ def run_case(cfg):
                      f"(converged={info.get('converged')}/{rr[1].get('converged')})", distance=dist, s=s, scaled=float(rr[0]))
     # (vii) constant weight
     k = cfg["weight"]
-    rw = go(m1, m2, L=1.0, weight=k * np.ones(shape))
+    rw = go(m1, m2, L=1.0, weight=k * np.ones(shape), reg=k)
     if isinstance(rw, Raised):
         fail(f"C05:weight:raises:{method}", f"{cls}: constant weight raises {rw}: {str(rw.exc)[:100]}")
     else:
@@ -307,7 +325,7 @@ def run_case(cfg):
         with warnings.catch_warnings():
             warnings.simplefilter("ignore")
             im1, im2 = image(d, m1, dims), image(d, m2, dims)
-            be = call(lambda: cl(d.generate_grid(im1), None, options(l1, mob, ni, L=1.0))(im1, im2))
+            be = call(lambda: cl(d.generate_grid(im1), None, options(l1, mob, ni, L=1.0, extra={"regularization": EPS}))(im1, im2))
         n += 1
         if isinstance(be, Raised) or float(be[0]) != dist:
             fail(f"C05:frontend!=backend:{method}", f"{cls}: front-end {dist!r}, back-end {be if isinstance(be, Raised) else float(be[0])!r}")
@@ -373,6 +391,56 @@ def emit_dispatch(t):
     return "\n".join(L) + "\n"
 
 
+# ---------------------------------------------------------------------------------------------- quadrature rules used by the cost
+
+
+def own_rule(l1, dim):
+    """the two rational rules, defined here independently of the implementation"""
+    if l1 == "CONSTANT_SUBCELL_PROJECTION":
+        pts = np.array(list(itertools.product((0.0, 1.0), repeat=dim)), dtype=float)
+        return pts, np.full(len(pts), 0.5 ** dim)
+    if l1 == "CONSTANT_CELL_PROJECTION":
+        return np.full((1, dim), 0.5), np.ones(1)
+    return None
+
+
+def rule_facts_oracle(ctx, d):
+    """hypotheses of first_moment_bound / potential_lower_bound (CellRuleFacts) on the rules the implementation returns:
+    non-negative weights, total weight 1, nodes in the unit cell, first moments 1/2 - for every L1 mode and dimension."""
+    for l1 in L1:
+        for dim in (1, 2, 3):
+            ctx.count(("rule-facts", l1, dim))
+            r = call(quadrature, d, l1, dim)
+            rp = {"l1": l1, "dim": dim}
+            if isinstance(r, Raised):
+                ctx.fail(f"C05:quadrature-rule:raises:{l1}:dim={dim}", f"quadrature rule of {l1} in {dim}-D raises {r}", rp)
+                continue
+            pts, w = r
+            bad = None
+            if len(pts) != len(w) or len(w) == 0:
+                bad = f"{len(pts)} points but {len(w)} weights"
+            elif np.any(w < 0):
+                bad = f"negative weight {float(w.min())!r}"
+            elif abs(float(w.sum()) - 1) > 1e-13:
+                bad = f"weights sum to {float(w.sum())!r}, not 1"
+            elif np.any(pts < -1e-15) or np.any(pts > 1 + 1e-15):
+                bad = "a node lies outside the reference cell"
+            elif np.max(np.abs((w[:, None] * pts).sum(axis=0) - 0.5)) > 1e-13:
+                bad = f"first moments {(w[:, None] * pts).sum(axis=0).tolist()} are not 1/2 (linears are not integrated exactly)"
+            if bad:
+                ctx.fail(f"C05:quadrature-rule:{l1}:dim={dim}", f"the quadrature rule of l1_mode {l1} in {dim}-D violates the hypotheses of the cost bounds: {bad}",
+                         {**rp, "weights": np.asarray(w).tolist(), "points": np.asarray(pts).tolist()})
+                continue
+            own = own_rule(l1, dim)
+            if own is not None:
+                # same rule up to the order of the nodes
+                a = sorted(map(tuple, np.round(np.column_stack([pts, w]), 14).tolist()))
+                b = sorted(map(tuple, np.round(np.column_stack([own[0], own[1]]), 14).tolist()))
+                if a != b:
+                    ctx.fail(f"C05:quadrature-rule:{l1}:dim={dim}", f"l1_mode {l1} in {dim}-D does not use the {'corner' if 'SUBCELL' in l1 else 'midpoint'} rule of the unit cell",
+                             {**rp, "weights": np.asarray(w).tolist(), "points": np.asarray(pts).tolist()})
+
+
 # ---------------------------------------------------------------------------------------------- EMD oracle
 
 
@@ -434,6 +502,15 @@ def emd_oracle(ctx, d):
             continue
         g = float(g)
         sc = max(g, 1e-12)
+        # call sequence on the SAME image objects (also through the unified front-end): values must not depend on earlier
+        # calls and the caller's images must be left as they were
+        ia, ib = image(d, m1, dims), image(d, m2, dims)
+        seqv = [call(e, ia, ib), call(e, ib, ia), call(d.wasserstein_distance, ia, ib, "cv2.emd"), call(e, ia, ib)]
+        if any(isinstance(v, Raised) for v in seqv) or any(abs(float(v) - g) > 1e-4 * sc for v in seqv):
+            ctx.fail("C05:EMD:call-sequence", f"EMD on reused image objects: emd(a,b), emd(b,a), front-end(a,b), emd(a,b) = {[v if isinstance(v, Raised) else float(v) for v in seqv]!r} "
+                     f"but a fresh pair gives {g!r}", rp)
+        if not (np.array_equal(ia.img, m1) and np.array_equal(ib.img, m2)):
+            ctx.fail("C05:EMD:modifies-input", f"EMD.__call__ changed the caller's images (sum {float(np.sum(ia.img))!r}, was {float(m1.sum())!r})", rp)
         b = call(e, image(d, m2, dims), image(d, m1, dims))
         s = rng.choice((2.0, 8.0, 3.7))
         gs = call(e, image(d, s * m1, dims), image(d, s * m2, dims))
@@ -476,7 +553,7 @@ def thin_correspondence(ctx, d):
     nmax = ctx.pick(14, 40)
     cases = []
     forms = [lambda n: (n,), lambda n: (n, 1), lambda n: (1, n), lambda n: (n, 1, 1), lambda n: (1, n, 1), lambda n: (1, 1, n)]
-    for i in range(ctx.pick(18, 120)):
+    for i in range(ctx.pick(18, 90)):
         n = rng.choice((2, 3, nmax)) if i % 5 == 0 else rng.randint(2, nmax)
         shape = forms[i % len(forms)](n)
         dim = len(shape)
@@ -495,7 +572,7 @@ def thin_correspondence(ctx, d):
         if sum(f) != 0:
             continue
         method, mob, l1 = combos[i % len(combos)]
-        pts, w = quadrature(d, l1, dim)
+        pts, w = own_rule(l1, dim)  # independent of the implementation's quadrature module
         req = f"thin {dim} {' '.join(map(str, shape))} {flist(hs)} {a} {flist(w)} {flist(pts.ravel())} {flist(f)}"
         cases.append(dict(shape=list(shape), hs=hs, m1=m1.reshape(shape, order="F").tolist(), m2=m2.reshape(shape, order="F").tolist(),
                           method=method, mob=mob, l1=l1, a=a, req=req))
@@ -734,7 +811,7 @@ def bruteforce(ctx):
     rng = ctx.rng
     small = [(2, 2), (2, 3), (3, 3), (2, 4), (2, 5), (3, 4), (2, 2, 2), (3, 2, 1), (1, 2, 4)]
     cfgs = []
-    for i in range(ctx.pick(5, 30)):
+    for i in range(ctx.pick(5, 20)):
         shape = small[i % len(small)] if i < len(small) else rng.choice(small)
         hs = [rng.choice((0.25, 0.5, 1.0, 2.0, 0.3, 1.3)) for _ in shape]
         m1, m2 = gen_pair(rng, shape, rng.choice(("positive", "compact")))
@@ -787,8 +864,8 @@ def make_cases(ctx):
     thin = [(5,), (9,), (6, 1), (1, 7), (4, 1, 1), (1, 5, 1), (1, 1, 6), (12,), (1, 40), (40, 1)]
     combos = list(itertools.product(("newton", "bregman"), MOB, L1))
     rng.shuffle(combos)
-    n_general = ctx.pick(12, 100)
-    n_thin = ctx.pick(14, 100)
+    n_general = ctx.pick(10, 70)
+    n_thin = ctx.pick(14, 70)
     for i in range(n_general + n_thin):
         is_thin = i >= n_general
         shape = rng.choice(thin if is_thin else general)
@@ -816,7 +893,14 @@ def run(ctx):
         from ..lib.core import REPO
 
         ex = c15.extract((REPO / "src" / "darsia" / "utils" / "quadrature.py").read_text())
-        ctx.write_gen("QuadratureTables", c15.emit(ex, c15.tabulate_corners(d)))
+        # the consumer table (which rule each L1 mode sums over) is part of the same generated file
+        try:
+            l1 = c15.extract_l1((REPO / "src" / "darsia" / "measure" / "wasserstein.py").read_text())
+        except Exception:  # noqa: BLE001 - same fallback as C15: keep the committed consumer table
+            from ..lib.core import LEAN
+
+            l1 = c15.parse_committed_l1((LEAN / "DarsiaGen" / "QuadratureTables.lean").read_text())
+        ctx.write_gen("QuadratureTables", c15.emit(ex, c15.tabulate_corners(d), l1))
         ctx.cov["quadrature_tables"] = "re-extracted from the current source (C15 generator)"
     except Exception as e:  # noqa: BLE001
         ctx.cov["quadrature_tables"] = f"committed table kept ({type(e).__name__}: {str(e)[:120]})"
@@ -828,6 +912,7 @@ def run(ctx):
         if t[k] != want:
             ctx.fail(f"C05:dispatch:{k}", f"wasserstein_distance(method={METHODS[k]!r}) reaches {t[k]!r}, documented back-end is {want}", {"method": METHODS[k]})
 
+    rule_facts_oracle(ctx, d)
     thin_correspondence(ctx, d)
     bruteforce(ctx)
     emd_oracle(ctx, d)
@@ -855,6 +940,7 @@ def run(ctx):
                        "per case: base, identical, swap, x2^k, x generic, fixed-L Bregman (every third), constant weight, back-end; distinct = distinct case configuration")
     ctx.cov["explanation"] = CLAIM["text"]
     ctx.assumptions += ["solver options: direct linear solver, pressure formulation, tolerances 1e-10 (the iteration may stop unconverged: all checked clauses except fixed-L Bregman scaling hold for unconverged iterates)",
+                        "scaled runs scale the dimensional solver parameters along: Bregman's L and the absolute clamp `regularization` (with the default clamp an unconverged Newton/SUBCELL run on compact data deviates by 1e-7 relative)",
                         "the flat face flux is recovered from the public info['flux'] (cell-centre RT0 values) by the recursion u_hi = 2*centre - u_lo",
                         "cv2.EMD computes the optimal flow for the given signatures (not covered)"]
 
